@@ -394,9 +394,12 @@ class Repo:
         else:
             # prefer modelx.core / modelx.io over historical serializers
             pri = [c for c in cands if ".serialize.serializer_" not in c.module.name
-                   and ".managers." not in c.module.name]
+                   and ".managers." not in c.module.name and ".export." not in c.module.name]
             if len(pri) >= 1:
                 cands = pri
+            core = [c for c in cands if c.module.name.startswith(self.package + ".core.")]
+            if len(cands) > 1 and len(core) == 1:
+                cands = core
         if len(cands) != 1:
             raise AnalysisError("class %r: %d candidates (anchor vanished?)" % (spec, len(cands)))
         return cands[0]
